@@ -1,0 +1,41 @@
+//go:build verif
+
+package consumer
+
+import (
+	"regexp"
+
+	"github.com/IBM/sarama"
+	"go.uber.org/zap"
+
+	"github.com/linkedin/Burrow/core/protocol"
+)
+
+// Verification hooks (build tag "verif" only).
+
+// VerifNewKafkaClient builds a KafkaClient with just the fields the message decoder uses.
+func VerifNewKafkaClient(app *protocol.ApplicationContext, name, cluster, allowlist, denylist string) *KafkaClient {
+	module := &KafkaClient{
+		App:     app,
+		Log:     zap.NewNop(),
+		name:    name,
+		cluster: cluster,
+	}
+	if allowlist != "" {
+		module.groupAllowlist = regexp.MustCompile(allowlist)
+	}
+	if denylist != "" {
+		module.groupDenylist = regexp.MustCompile(denylist)
+	}
+	return module
+}
+
+// VerifProcessMessage calls processConsumerOffsetsMessage.
+func (module *KafkaClient) VerifProcessMessage(msg *sarama.ConsumerMessage) {
+	module.processConsumerOffsetsMessage(msg)
+}
+
+// VerifAcceptConsumerGroup calls acceptConsumerGroup.
+func (module *KafkaClient) VerifAcceptConsumerGroup(group string) bool {
+	return module.acceptConsumerGroup(group)
+}
